@@ -127,6 +127,11 @@ func checkC13(c c13Case) error {
 		}
 	}
 	_, vDec := decodeAny(kind, wire)
+	// the verdict on these bytes is the same when the destination has been used before (header values that held a
+	// kid, an alg, a text-labelled parameter, a content type a moment ago)
+	if vUsed, ok := c13DecodeIntoUsed(kind, wire); ok && (vUsed == nil) != (vDec == nil) {
+		return finding("verdict-depends-on-destination", "%s: decode verdict into a fresh value: %v; into a value that held other parameters before: %v\nwire=%x", c.Ctx, vDec, vUsed, wire)
+	}
 	vRef := refcose.WellFormed(kind, wire)
 	if vEnc == nil && vRef != nil {
 		return finding("encodes-nonconforming", "%s: encoder accepts a header set violating RFC 9052 3.1 (%v)\nprot=%s unprot=%s", c.Ctx, vRef, c.Prot, c.Unprot)
@@ -158,6 +163,35 @@ func checkC13(c c13Case) error {
 	}
 	stats.Class("ctx/" + c.Ctx)
 	return nil
+}
+
+// c13DecodeIntoUsed decodes the header buckets found in wire into header values that were filled before: the bare
+// bucket decoders directly, the buckets of a message through Headers.UnmarshalFromRaw.
+func c13DecodeIntoUsed(kind refcose.Kind, wire []byte) (error, bool) {
+	prior := func() cose.Headers {
+		return cose.Headers{
+			Protected:   cose.ProtectedHeader{int64(1): cose.AlgorithmES256, int64(4): []byte("old"), "x": int64(1), int64(3): "a/b", int64(5): []byte{1}},
+			Unprotected: cose.UnprotectedHeader{int64(4): []byte("old"), int64(6): []byte{2}, "y": int64(2), int64(99): int64(9)},
+		}
+	}
+	switch kind {
+	case refcose.KProtected:
+		h := prior()
+		return h.Protected.UnmarshalCBOR(append([]byte{}, wire...)), true
+	case refcose.KUnprotected:
+		h := prior()
+		return h.Unprotected.UnmarshalCBOR(append([]byte{}, wire...)), true
+	}
+	env, err := refcose.ParseEnv(kind, wire)
+	if err != nil || env.Prot == nil || env.Unprot == nil {
+		return nil, false
+	}
+	if _, derr := decodeAny(kind, wire); derr != nil && len(env.Sigs) > 0 {
+		return nil, false // the refusal may stem from a signer layer; only the outermost layer is replayed here
+	}
+	h := prior()
+	h.RawProtected, h.RawUnprotected = append([]byte{}, env.Prot.Raw()...), append([]byte{}, env.Unprot.Raw()...)
+	return h.UnmarshalFromRaw(), kind != refcose.KSign
 }
 
 func hasDupLabels(v rc.Val) bool {
